@@ -140,6 +140,9 @@ func c07(run *ev.Run, tier string) {
 			s.Contents = append(s.Contents, &gen.Content{Src: filepath.Join(root, nd.Rel), Dst: "/opt/" + s.Name + "/blocks.bin"})
 			c.Feature("block-sized-payload")
 		}
+		if i%8 == 2 {
+			s.Maintainer = "" // deb and ipk substitute a fixed placeholder (and print a notice): not anything from the builder's environment
+		}
 		if i%2 == 1 {
 			// destinations that differ only in the case of letters (README / readme /
 			// ReadMe): their relative order is part of the bytes
@@ -294,7 +297,10 @@ func c07(run *ev.Run, tier string) {
 				if v.relative {
 					y = strings.ReplaceAll(y, root+"/", "")
 				}
-				env := []string{"PATH=" + os.Getenv("PATH"), "HOME=" + root, "TZ=" + v.tz, "GOMAXPROCS=" + v.gmp}
+				env := []string{"PATH=" + os.Getenv("PATH"), "HOME=" + root, "TZ=" + v.tz, "GOMAXPROCS=" + v.gmp,
+					// identity and locale of whoever runs the build
+					"USER=builder" + v.gmp, "LOGNAME=builder" + v.gmp, "DEBFULLNAME=Builder " + v.tz, "DEBEMAIL=builder@" + v.gmp + ".example", "EMAIL=other@" + v.gmp + ".example",
+					"LANG=" + []string{"C", "de_DE.UTF-8", "tr_TR.UTF-8"}[vi%3], "LC_ALL=" + []string{"C", "de_DE.UTF-8", "tr_TR.UTF-8"}[vi%3], "HOSTNAME=host" + v.gmp}
 				if v.sde {
 					// drop the top-level mtime line and pass the same instant through the environment
 					var keep []string
